@@ -2,6 +2,7 @@ package verifsim
 
 import (
 	"fmt"
+	"strings"
 
 	"pgregory.net/rapid"
 )
@@ -34,6 +35,7 @@ type Profile struct {
 	BigCache                    bool     // always the large compilation cache (programs stay cached for the whole run)
 	WorldVarPct                 int      // chance that a variable source of a script is bound to world
 	DropKinds                   []string // op kinds removed (input masking of an open finding)
+	oddKeys                     bool     // this run's idempotency keys are 300 characters long, its references end in a blank
 }
 
 // fineFocus narrows, in half of the fine-grained runs, the statement-level scheduling points to
@@ -41,8 +43,10 @@ type Profile struct {
 func fineFocus(t *rapid.T, profile string) string {
 	focus := map[string][]string{
 		"spend": {"command/lock.go", "command/commander.go"},
-		"chain": {"batching/batcher.go", "job/jobs.go", "command/commander.go"},
-		"durab": {"batching/batcher.go", "job/jobs.go", "command/commander.go"},
+		"chain": {"batching/batcher.go", "job/jobs.go", "command/commander.go", "internal/log.go", "command/context.go"},
+		"durab": {"batching/batcher.go", "job/jobs.go", "command/commander.go", "command/context.go"},
+		"audit": {"internal/log.go"},
+		"previ": {"internal/log.go", "command/context.go", "command/commander.go"},
 		"idem-": {"command/reference.go", "command/commander.go"},
 		"idem":  {"command/reference.go", "command/commander.go"},
 		"ref":   {"command/reference.go", "command/commander.go"},
@@ -66,7 +70,7 @@ var allTpls = []int{tplLit, tplVar, tplMeta, tplOrdered, tplMax, tplOverdraftBou
 var profiles = map[string]Profile{
 	// C02: scarce funds, many spenders, every way of naming a source
 	"spend": {Name: "spend", MaxClients: 5, MaxOps: 3, MaxGens: 1, MaxLedgers: 1, WKind: [5]int{12, 3, 2, 2, 0},
-		Tpls:  []int{tplLit, tplVar, tplMeta, tplOrdered, tplMax, tplOverdraftBounded, tplAll, tplBalance, tplTwoSends, tplSplit, tplLit, tplVar, tplMeta, tplOrderedVars, tplOrderedVars, tplSaveVar},
+		Tpls:  []int{tplLit, tplVar, tplMeta, tplOrdered, tplMax, tplOverdraftBounded, tplAll, tplBalance, tplTwoSends, tplSplit, tplLit, tplVar, tplMeta, tplOrderedVars, tplOrderedVars, tplSaveVar, tplFallbackWorld, tplFallbackOverdraft, tplFeeVars, tplFeeVars},
 		IKPct: 0, RefPct: 0, DryPct: 3, CancelBlockedPct: 10, IKPool: 2, RefPool: 2, TargetPool: 3, FundMax: 12, AmountMax: 12},
 	// C02: one script text, many bindings -- whatever a request does to the cached, shared program
 	// (or to anything else that outlives it) meets the next requests using the same text
@@ -74,7 +78,7 @@ var profiles = map[string]Profile{
 		Tpls: []int{tplOrderedVars, tplOrderedVars, tplOrderedVars, tplVar}, WorldVarPct: 25, NoBuggify: true, BigCache: true,
 		CancelBlockedPct: 5, IKPool: 2, RefPool: 2, TargetPool: 3, FundMax: 10, AmountMax: 12},
 	"spend-faults": {Name: "spend-faults", MaxClients: 5, MaxOps: 3, MaxGens: 3, MaxLedgers: 2, WKind: [5]int{12, 3, 2, 2, 0}, ClockPct: 10,
-		Tpls:     []int{tplLit, tplVar, tplMeta, tplOrdered, tplMax, tplOverdraftBounded, tplAll, tplBalance, tplTwoSends, tplOrderedVars},
+		Tpls:     []int{tplLit, tplVar, tplMeta, tplOrdered, tplMax, tplOverdraftBounded, tplAll, tplBalance, tplTwoSends, tplOrderedVars, tplFallbackWorld, tplFallbackOverdraft, tplFeeVars},
 		CrashPct: 60, WriteFailPct: 20, ReadFailPct: 20, CancelBlockedPct: 20, CancelPct: 5, IKPool: 2, RefPool: 2, TargetPool: 3, FundMax: 12, AmountMax: 12},
 	// C05: mixed writers, batch boundaries everywhere, restarts
 	"chain": {Name: "chain", BigIDs: true, MaxClients: 6, MaxOps: 4, MaxGens: 4, MaxLedgers: 2, WKind: [5]int{6, 3, 3, 3, 2},
@@ -212,6 +216,11 @@ func genOp(t *rapid.T, p *Profile, cfg *Config) Op {
 	case "script":
 		op.Tpl = rapid.SampledFrom(p.Tpls).Draw(t, "tpl")
 		op.Src, op.Src2, op.Dst, op.Dst2 = acct("src"), acct("src2"), acct("dst"), acct("dst2")
+		// the same account reached through two resources of one script (two variables, a
+		// variable and a literal): aliasing is where per-resource bookkeeping goes wrong
+		if pct(t, 25, "aliasSrc") {
+			op.Src2 = op.Src
+		}
 		wv := p.WorldVarPct
 		if wv == 0 {
 			wv = 15
@@ -268,9 +277,15 @@ func genOp(t *rapid.T, p *Profile, cfg *Config) Op {
 	}
 	if pct(t, p.IKPct, "hasik") {
 		op.IK = fmt.Sprintf("ik%d", rapid.IntRange(0, p.IKPool).Draw(t, "ik"))
+		if p.oddKeys {
+			op.IK += strings.Repeat("k", 300) // longer than the column that stores it
+		}
 	}
 	if (op.Kind == "script" || op.Kind == "postings") && pct(t, p.RefPct, "hasref") {
 		op.Ref = fmt.Sprintf("r%d", rapid.IntRange(0, p.RefPool).Draw(t, "ref"))
+		if p.oddKeys {
+			op.Ref += " " // a reference is an opaque string: blanks are part of it
+		}
 	}
 	op.DryRun = pct(t, p.DryPct, "dry")
 	if (op.Kind == "script" || op.Kind == "postings") && pct(t, p.TSPct, "hasts") {
@@ -284,6 +299,9 @@ func genOp(t *rapid.T, p *Profile, cfg *Config) Op {
 
 // GenInput draws a complete run input for a profile.
 func GenInput(t *rapid.T, p *Profile) *Input {
+	pp := *p
+	p = &pp
+	p.oddKeys = pct(t, 12, "oddKeys")
 	in := &Input{Profile: p.Name}
 	cfg := &in.Cfg
 	cfg.Ledgers = rapid.IntRange(1, max(1, p.MaxLedgers)).Draw(t, "ledgers")
@@ -302,6 +320,7 @@ func GenInput(t *rapid.T, p *Profile) *Input {
 	cfg.MaskSites = p.MaskSites
 	if len(fineSiteList) > 0 {
 		cfg.FineSites = genFineSites(t, fineFocus(t, p.Name))
+		cfg.FineHeld = len(cfg.FineSites) > 0 && rapid.Bool().Draw(t, "fineHeld")
 	}
 	bigPct := 20
 	if p.Name == "audit" {
@@ -323,6 +342,15 @@ func GenInput(t *rapid.T, p *Profile) *Input {
 		nseed := rapid.IntRange(0, 2).Draw(t, "seedtx")
 		for i := 0; i < nseed; i++ {
 			in.Prelude = append(in.Prelude, Op{Kind: "postings", Ledger: l, Postings: []PostingSpec{{Src: -1, Dst: rapid.IntRange(0, cfg.Accounts-1).Draw(t, "seeddst"), Amount: fmt.Sprint(rapid.IntRange(1, 5).Draw(t, "seedamt"))}}})
+		}
+	}
+
+	// Some runs start on a ledger that is (almost) empty: the first log, the first transaction id
+	// and the first entries of every kind are then written by racing clients, not by the
+	// single-threaded prelude.
+	if pct(t, 8, "shortPrelude") {
+		if k := rapid.IntRange(0, 1).Draw(t, "preludeLen"); k < len(in.Prelude) {
+			in.Prelude = in.Prelude[:k]
 		}
 	}
 
